@@ -784,10 +784,21 @@ def check_arith(ctx):
         and u(body[1].value) == 'self._getitem_int_array(np.arange({}))'.format(', '.join(u(e) for e in body[0].targets[0].elts))
     rep.add('X4', g1.site(), 'generic slice = the positions range(*slice.indices(len)) as an index array', okg, expected='self._getitem_int_array(np.arange(start, stop, step))', found=[u(s) for s in body], stmt='generic slice')
     g2 = m.func(f'{IDX}._getitem_bool_array')
-    body = [s for s in g2.node.body if isinstance(s, ast.Return)]
-    rep.add('X4', g2.site(), 'a mask selects the positions of its True entries, ascending', len(body) == 1 and u(body[0].value) == f'self._getitem_int_array(np.flatnonzero({g2.params()[1]}))', expected='np.flatnonzero(mask)',
+    body = [s for s in stmts_in(g2.node.body) if isinstance(s, ast.Return)]
+    rep.add('X4', g2.site(), 'a mask selects the positions of its True entries, ascending (on every path: no special-case return)', len(body) == 1 and u(body[0].value) == f'self._getitem_int_array(np.flatnonzero({g2.params()[1]}))', expected='np.flatnonzero(mask)',
             found=[u(b.value) for b in body], stmt='mask')
     rep.functions.update({g1.qualname, g2.qualname})
+    # a selection is a new collection: no handler hands back the receiver itself (mutable collections use the same handlers)
+    n = 0
+    for q, fi in sorted(m.functions.items()):
+        if fi.cls is None or not (fi.name.startswith('_getitem_') or fi.name == '__getitem__') or not (q.startswith(IDX + '.') or q.startswith(BASE + '.')):
+            continue
+        n += 1
+        selfname = fi.params()[0] if fi.params() else 'self'
+        ident = [r for r in stmts_in(fi.node.body) if isinstance(r, ast.Return) and r.value is not None and u(r.value) == selfname]
+        rep.add('X4', fi.site(ident[0] if ident else None), f'{fi.cls.node.name}.{fi.name} never returns the collection itself as the selected sub-collection', not ident, expected='a new collection / element',
+                found=[f'return {u(r.value)} under {sorted(path_atoms(guard_map(fi.node)[r]))}' for r in ident] or 'no identity return', stmt=f'{fi.cls.node.name}.{fi.name} identity')
+    rep.floor('X4', 'selection handlers', n, 6)
 
 
 def check_subcollections(ctx):
@@ -1041,6 +1052,8 @@ _FILL = "\t\tfor i, idx in enumerate(indices):\n\t\t\tnp.copyto(out[i], self._ge
 _SIGEQ = "\treturn len(a1) == len(a2) and all(map(np.array_equal, a1, a2))"
 _EQ = "\t\tif isinstance(other, AbstractSignatureArray):\n\t\t\treturn self.kmerspec == other.kmerspec and sigarray_eq(self, other)\n\t\telse:\n\t\t\treturn NotImplemented\n"
 VARIANTS = [
+    V('all-True mask returns the collection itself (seeded C20c)', 'B', 'src/gambit/util/indexing.py', "\t\treturn self._getitem_int_array(np.flatnonzero(index))\n",
+      "\t\tif index.size > 0 and index.all():\n\t\t\treturn self\n\t\treturn self._getitem_int_array(np.flatnonzero(index))\n", 'X4'),
     V('copy only on identity (the repaired defect)', 'B', _I, "\t\t\t\tindex = index.copy()\n", "\t\t\t\tif index is input_index:\n\t\t\t\t\tindex = index.copy()\n", 'X2',
       also=[(_I, "\tdef __getitem__(self, index):\n", "\tdef __getitem__(self, index):\n\t\tinput_index = index\n")]),
     V('copy removed', 'B', _I, "\t\t\t\tindex = index.copy()\n", "", 'X2'),
